@@ -3,7 +3,7 @@
    assert_unreachable, le ge sle sge ne ceil32, select), tied to vyper/ir/compile_ir.py by exact output equality on
    seeded random trees; the opcode tables are regenerated from the source (GenUtils.v). *)
 From Coq Require Import ZArith List String Lia.
-From Verif Require Import Base.Word256 Base.PyInt C15.Syntax C15.GenUtils C15.Peephole C15.Lower C15.LowerSound.
+From Verif Require Import Base.Word256 Base.PyInt C15.Syntax C15.GenUtils C15.Peephole C15.Lower C15.LowerSound C15.LowerFlow.
 Import ListNotations.
 Open Scope Z_scope.
 
@@ -12,23 +12,61 @@ Open Scope Z_scope.
    sits in the stack slot the lowerer assumes, and every stack: running the emitted assembly pushes exactly the value
    of the expression and leaves the rest of the stack unchanged. *)
 Theorem lower_sound :
-  forall f wa h e s code s' pf en stk v,
-    lower f wa h e s = Ok (code, s') -> aligned stk h wa en -> List.length stk = h ->
+  forall f wa bd h e s code s' pf en stk v,
+    lower f wa bd h e s = Ok (code, s') -> aligned stk h wa en -> List.length stk = h ->
     peval pf en e = Some v -> runs code stk (v :: stk).
 Proof. exact lower_pure_sound. Qed.
 Print Assumptions lower_sound.
 
 (* closed expressions, from an empty stack *)
+Definition lst0 : lst := {| cnt := 0; revl := None; labels := []; lh := [] |}.
 Corollary lower_closed_sound :
   forall e code s' pf v,
-    lower 64 [] 0 e {| cnt := 0; revl := None |} = Ok (code, s') -> peval pf [] e = Some v -> runs code [] [v].
+    lower 64 [] None 0 e lst0 = Ok (code, s') -> peval pf [] e = Some v -> runs code [] [v].
 Proof. intros e code s' pf v H P. eapply lower_pure_sound; eauto. constructor. Qed.
 
 (* non-vacuity: operand order, DUP indices and pseudo-ops on a concrete expression:
    (with x 7 (sub (ceil32 x) (le x 3)))  =  32 - 0 *)
 Definition run_lower (e : expr) : option (list Z) :=
-  match lower 64 [] 0 e {| cnt := 0; revl := None |} with Ok (c, _) => run_code c [] | Err _ => None end.
+  match lower 64 [] None 0 e lst0 with Ok (c, _) => run_code c [] | Err _ => None end.
 Example lower_nonvacuous :
   let e := Node "with" [Var "x"; Lit 7; Node "sub" [Node "ceil32" [Var "x"]; Node "le" [Var "x"; Lit 3]]] in
   peval 10 [] e = Some 32 /\ run_lower e = Some [32].
+Proof. split; vm_compute; reflexivity. Qed.
+
+(* Stack-height balance with control flow (LowerFlow.v).  `flow E code st` checks emitted assembly against label heights E:
+   every opcode finds its operands within the frame (DUPn needs n, SWAPn n+1 items), every static jump and every
+   fall-through reaches a label at the height E gives it.  For every tree of the fragment (wv: every EVM opcode, with-
+   variables, set, pass, if, with, seq, assert, assert_unreachable, select, le ge sle sge ne, ceil32, sha3_64, dload,
+   dloadbytes, repeat / break / continue, unique_symbol; sub-terms have the valency their context needs; `continue`
+   not under a `with` inside its loop -- compile_ir does not clean up there, unlike `break`) the code emitted at
+   compile-time height h runs from h to h + valency, for E = the heights at which the lowerer placed its labels
+   (mksymbol names are proved fresh).  So the height from which DUP/SWAP indices are computed is the real relative
+   stack depth on every path. *)
+Theorem lower_height_balance :
+  forall f wa bd h e s a s' lv, lower f wa bd h e s = Ok (a, s') -> wv lv e -> rinv s ->
+    mono s s' /\ rinv s' /\
+    forall E, env_ok E s' -> scope_ok wa h -> bd_ok E bd h -> lv_ok lv bd h -> FlowOK E a h (h + valency e).
+Proof. intros f wa bd. exact (lower_spec f wa bd). Qed.
+Print Assumptions lower_height_balance.
+Theorem lower_program_balanced :
+  forall e code, lower_top e = Ok code -> wv false e -> exists E, flow E code (Live 0 None) = Some Dead.
+Proof. exact lower_top_balanced. Qed.
+Print Assumptions lower_program_balanced.
+
+(* non-vacuity: a loop with break / continue / with / if passes the check; a `continue` under a `with` inside the loop
+   body (outside the fragment) is emitted without clean-up and fails it *)
+Definition flow_top (e : expr) : option hst :=
+  match lower 64 [] None 0 e lst0 with
+  | Ok (a, s') => flow (lh s') (a ++ postamble s') (Live 0 None)
+  | Err _ => None
+  end.
+Example height_balance_nonvacuous :
+  let body := Node "seq" [Node "if" [Node "lt" [Var "i"; Lit 3]; Node "continue" []];
+                          Node "with" [Var "t"; Node "add" [Var "i"; Lit 1];
+                                       Node "if" [Node "gt" [Var "t"; Lit 7]; Node "break" []; Node "mstore" [Lit 0; Var "t"]]];
+                          Node "assert" [Node "calldataload" [Var "i"]]] in
+  let bad := Node "with" [Var "t"; Lit 1; Node "continue" []] in
+  flow_top (Node "repeat" [Var "i"; Lit 0; Node "calldataload" [Lit 0]; Lit 10; body]) = Some Dead /\
+  flow_top (Node "repeat" [Var "i"; Lit 0; Lit 10; Lit 10; bad]) = None.
 Proof. split; vm_compute; reflexivity. Qed.
